@@ -287,6 +287,12 @@ def run_property(modname, tier, seed, replay=None):
                             dict(broken="proof obligation in %s (theorems of DH.%s)" % (tgt, os.path.basename(build.property_dir(pid)))))
         violations.append(dict(stream="proof", clause=proof_break["stage"], replay=path, found_input=False))
 
+    chk = None
+    if tier == "thorough" and not proof_break and not replay:
+        chk = build.coqchk_property(pid)
+        if not chk.get("ok"):
+            path = write_replay(pid, "proof", None, dict(kind="proof", clause="coqchk", detail=chk), dict(broken="coqchk rejects DH.%s.Property" % os.path.basename(build.property_dir(pid))))
+            violations.append(dict(stream="proof", clause="coqchk", replay=path, found_input=False))
     for kf in known_hits.values():
         print("KNOWN-FINDING: property=%s %s" % (pid, kf["text"]))
     for v in violations:
@@ -304,6 +310,7 @@ def run_property(modname, tier, seed, replay=None):
         known_findings_hit=sorted(known_hits),
         facts=facts_info,
         build=binfo,
+        coqchk=chk,
     )
     _write_evidence(ev, cov, mod, t0, len(violations), thms, assum, stats, proof_break)
     return 1 if violations else 0
